@@ -167,6 +167,15 @@ func main() {
 				fmt.Printf("%3d %-50s %s ev=%v heap=%v reg=%v vals=%v\n", j, o.String(), e.Samples[j].Class, e.Samples[j].Events, e.Samples[j].Heap, e.Samples[j].Reg, e.Samples[j].Vals)
 			}
 		}
+		if *par > 0 && writesSeveralVars(e.Ops) {
+			// ParallelStabilize refuses deterministic graphs, so the values deferred during a pass
+			// are applied in Go map order: with two or more vars written in one pass the order in
+			// which they are re-queued -- and with it the creation order of nodes in the next pass --
+			// is not a function of the history. The oracles above still ran; the model replay
+			// (which applies them in identifier order) is only meaningful for the other histories.
+			rep.Count("not-replayed:several-vars-written-in-a-parallel-pass")
+			continue
+		}
 		if len(cases) < *coqMax && (memo == nil || i%(len(memo) / *coqMax + 1) == 0) {
 			cases = append(cases, e.CoqCase())
 		}
@@ -283,4 +292,20 @@ func replayFiles(path, claim, include string) int {
 		}
 	}
 	return rc
+}
+
+// writesSeveralVars: some pass of the history carries a plan that writes two or more distinct vars.
+func writesSeveralVars(ops []eng.Op) bool {
+	for _, o := range ops {
+		vars := map[int]bool{}
+		for _, a := range o.Plan {
+			if a.Kind == "ASet" || a.Kind == "AUpdate" {
+				vars[a.Var] = true
+			}
+		}
+		if len(vars) > 1 {
+			return true
+		}
+	}
+	return false
 }
